@@ -45,6 +45,26 @@ type Case struct {
 	View    string       `json:"view,omitempty"` // views test: zip | tar
 	// RereadTar re-reads file contents through the tar view a second time (only set by the replay of C07-R27)
 	RereadTar bool `json:"reread_tar,omitempty"`
+	// OutSpelling / SrcSpelling: how Unzip is given the destination and Zip the directory to archive: "" clean, slash =
+	// trailing separator, double = doubled separator, dot = /./ before the last element, dotdot = <dir>/x/../<base>
+	OutSpelling string `json:"destination_spelling,omitempty"`
+	SrcSpelling string `json:"source_spelling,omitempty"`
+}
+
+func spell(p, how string) string {
+	dir, base := filepath.Dir(p), filepath.Base(p)
+	sep := string(filepath.Separator)
+	switch how {
+	case "slash":
+		return p + sep
+	case "double":
+		return dir + sep + sep + base
+	case "dot":
+		return dir + sep + "." + sep + base
+	case "dotdot":
+		return dir + sep + "x" + sep + ".." + sep + base
+	}
+	return p
 }
 
 func generous() filesystem.ILimits { return filesystem.NewLimits(1<<30, 1<<34, 1<<20, -1, false) }
@@ -116,9 +136,9 @@ func checkRoundTrip(t ev.T, test string, c Case) {
 	var list []string
 	ev.Guard(t, prop, test, c, func() {
 		if c.Limits {
-			zerr = box.FS.ZipWithContextAndLimits(context.Background(), src, arch, c.limits())
+			zerr = box.FS.ZipWithContextAndLimits(context.Background(), spell(src, c.SrcSpelling), arch, c.limits())
 		} else {
-			zerr = box.FS.Zip(src, arch)
+			zerr = box.FS.Zip(spell(src, c.SrcSpelling), arch)
 		}
 	})
 	if zerr != nil {
@@ -126,9 +146,9 @@ func checkRoundTrip(t ev.T, test string, c Case) {
 	}
 	ev.Guard(t, prop, test, c, func() {
 		if c.Limits {
-			list, uerr = box.FS.UnzipWithContextAndLimits(context.Background(), arch, out, c.limits())
+			list, uerr = box.FS.UnzipWithContextAndLimits(context.Background(), arch, spell(out, c.OutSpelling), c.limits())
 		} else {
-			list, uerr = box.FS.Unzip(arch, out)
+			list, uerr = box.FS.Unzip(arch, spell(out, c.OutSpelling))
 		}
 	})
 	if uerr != nil {
@@ -173,6 +193,12 @@ func checkRoundTrip(t ev.T, test string, c Case) {
 		}
 	}
 	for p := range listed {
+		if p == filepath.Clean(out) {
+			// the destination itself (created by the call as well): an archive made from a directory spelled with a
+			// trailing separator carries an entry for its root
+			ev.Class("the returned list names the destination itself")
+			continue
+		}
 		if !created[p] {
 			ev.Fail(t, prop, test, c, "returned list names %q which was not created", p)
 		}
@@ -646,6 +672,8 @@ func TestRoundTrip(t *testing.T) {
 		c := Case{Backend: rapid.SampledFrom([]string{"mem", "os"}).Draw(rt, "backend"), Limits: rapid.Bool().Draw(rt, "limits")}
 		c.Tree = genTree(rt, false)
 		c.Recursive = c.Limits && rapid.Bool().Draw(rt, "recursive-limits")
+		c.OutSpelling = rapid.SampledFrom([]string{"", "", "", "slash", "double", "dot", "dotdot"}).Draw(rt, "out-spelling")
+		c.SrcSpelling = rapid.SampledFrom([]string{"", "", "", "slash", "double", "dot", "dotdot"}).Draw(rt, "src-spelling")
 		// files named like archives (any letter case) with ordinary content
 		if len(c.Tree) > 0 && rapid.IntRange(0, 2).Draw(rt, "archive-names") == 0 {
 			for k, tries := 0, rapid.IntRange(1, 3).Draw(rt, "archive-named-files"); k < tries; k++ {
